@@ -1,6 +1,7 @@
 """C14 - enumerations and constants admit exactly the declared values."""
 from __future__ import annotations
 
+import copy
 import enum
 import typing
 
@@ -117,7 +118,7 @@ def enum_case(draw):
     else:
         vals = draw(st.lists(st.one_of(st.integers(-5, 5), st.integers(-2**40, 2**40)), min_size=1, max_size=6, unique=True))
     return {"kind": "enum", "literal": literal, "base": base, "values": vals, "null": draw(st.integers(0, 3)) == 0,
-            "place": draw(st.sampled_from(["inline", "component", "wrapped"])), "required": draw(st.booleans()),
+            "place": draw(st.sampled_from(["inline", "component", "wrapped", "union_with_model", "component_in_union"])), "required": draw(st.booleans()),
             "typed": draw(st.booleans()), "v31": draw(st.booleans())}
 
 
@@ -125,7 +126,9 @@ def enum_case(draw):
 def const_case(draw):
     v = draw(st.one_of(st.sampled_from(["fixed", "", "A b", "é"]), st.text(alphabet=SAFE_ALPHA, max_size=5), st.integers(-3, 3),
                        st.sampled_from([1.5, -0.25, 2.0]), st.booleans()))
-    return {"kind": "const", "value": v, "typed": draw(st.booleans()), "required": draw(st.booleans()), "literal": draw(st.booleans())}
+    return {"kind": "const", "value": v, "typed": draw(st.booleans()), "required": draw(st.booleans()), "literal": draw(st.booleans()),
+            # the const as one alternative of a union: with null (either order) or with a model
+            "union": draw(st.sampled_from([None, None, "null_first", "null_last", "with_model"]))}
 
 
 @st.composite
@@ -220,6 +223,9 @@ def _run_pair(case, ctx):
         env.rm(res.out)
 
 
+LEAF = {"type": "object", "required": ["lf"], "properties": {"lf": {"type": "string"}}, "additionalProperties": False}
+
+
 def _doc(case):
     ver = "3.1.0" if case.get("v31") else "3.0.3"
     if case["kind"] == "const":
@@ -227,7 +233,14 @@ def _doc(case):
         sch = {"const": v}
         if case.get("typed"):
             sch["type"] = {str: "string", bool: "boolean", int: "integer", float: "number"}[type(v)]
-        schemas = {"Holder": {"type": "object", "properties": {"ee": sch}, **({"required": ["ee"]} if case["required"] else {})}}
+        schemas = {}
+        if case.get("union") in ("null_first", "null_last"):
+            sch = {"oneOf": [{"type": "null"}, sch] if case["union"] == "null_first" else [sch, {"type": "null"}]}
+            ver = "3.1.0"
+        elif case.get("union") == "with_model":
+            sch = {"oneOf": [sch, {"$ref": "#/components/schemas/Leaf"}]}
+            schemas["Leaf"] = copy.deepcopy(LEAF)
+        schemas["Holder"] = {"type": "object", "properties": {"ee": sch}, **({"required": ["ee"]} if case["required"] else {})}
     else:
         vals = list(case["values"]) + ([None] if case["null"] else [])
         e = {"enum": vals}
@@ -236,6 +249,13 @@ def _doc(case):
         schemas = {}
         if case["place"] == "inline":
             prop = e
+        elif case["place"] == "union_with_model":
+            prop = {"oneOf": [e, {"$ref": "#/components/schemas/Leaf"}]}
+            schemas["Leaf"] = copy.deepcopy(LEAF)
+        elif case["place"] == "component_in_union":
+            schemas["Kind"] = e
+            schemas["Leaf"] = copy.deepcopy(LEAF)
+            prop = {"anyOf": [{"$ref": "#/components/schemas/Leaf"}, {"$ref": "#/components/schemas/Kind"}]}
         else:
             schemas["Kind"] = e
             prop = {"$ref": "#/components/schemas/Kind"} if case["place"] == "component" else {"allOf": [{"$ref": "#/components/schemas/Kind"}]}
@@ -256,13 +276,14 @@ def negatives(case) -> list:
         elif isinstance(v, float):
             cands += [v + 1, str(v), -v - 3]
     cands = cands[:14] + [-1, 2.5, [], {}, {"a": 1}]
-    if not (case.get("null")):
+    null_ok = bool(case.get("null")) or case.get("union") in ("null_first", "null_last")
+    if not null_ok:
         cands.append(None)
     out = []
     for c in cands:
         if any(json_eq(c, v) for v in vals):
             continue
-        if c is None and case.get("null"):
+        if c is None and null_ok:
             continue
         if not any(json_eq(c, o) and type(c) is type(o) for o in out):
             out.append(c)
@@ -327,7 +348,7 @@ def run(case, ctx):
             listed = case["values"] if case["kind"] == "enum" else [case["value"]]
             # --- every listed value decodes to itself and re-encodes to the same JSON value
             members = set()
-            for v in listed + ([None] if case.get("null") else []):
+            for v in listed + ([None] if (case.get("null") or case.get("union") in ("null_first", "null_last")) else []):
                 ctx.evals()
                 try:
                     o = Holder.from_dict({"ee": v})
@@ -341,6 +362,9 @@ def run(case, ctx):
                             ctx.violation("listed.decodes_to_itself", site0, f"{v!r} -> {got!r}")
                         if isinstance(got, enum.Enum):
                             members.add(type(got))
+                        elif case["kind"] == "enum" and not case.get("literal"):
+                            # Enum-class style: a listed value is held as the member, not as the bare wire value
+                            ctx.violation("listed.decodes_to_member", site0, f"{v!r} -> {type(got).__name__} {got!r}")
                     enc = o.to_dict()
                     if "ee" not in enc or not json_eq(enc["ee"], v):
                         ctx.violation("listed.reencodes", site0, f"{v!r} -> {enc!r}")
